@@ -91,7 +91,7 @@ def run(ctx):
                 ok_sinks(split), width=w, require_fail_err=False)
         # every generated share enters both maps; verifying share = G * that share; threshold recorded
         lr = reductions(ctx, split.key, adaptors={}, min_loops=1)
-        oks = [v.cx.operand(rv["ops"][0]) for (b, k, rv) in ret_writes(split) if k == "ok"]
+        oks = ok_values(split, v)
         good = False
         det = ""
         if len(oks) == 1:
@@ -148,7 +148,7 @@ def run(ctx):
         v = FnView.get(P, tf)
         refusal(ctx, tf, "SEP", "G15:verify-before-KeyPackage",
                 [("SecretShare::verify", succ_fact(call("verify", arg(1))))], ok_sinks(tf), require_fail_err=False)
-        oks = [v.cx.operand(rv["ops"][0]) for (b, k, rv) in ret_writes(tf) if k == "ok"]
+        oks = ok_values(tf, v)
         good = len(oks) == 1 and oks[0][0] == "agg"
         narrow = []
         if good:
@@ -175,7 +175,7 @@ def run(ctx):
             fld(arg(1), "commitment")(t[2][1])
         refusal(ctx, sv, "SEP", "G16:G*s==evaluate_vss(id,commitment)", [("eq", cmp_fact("eq", lhs, rhs, False))],
                 ok_sinks(sv))
-        oks = [v.cx.operand(rv["ops"][0]) for (b, k, rv) in ret_writes(sv) if k == "ok"]
+        oks = ok_values(sv, v)
         good = len(oks) == 1 and oks[0][0] == "agg" and oks[0][1] == "tuple"
         if good:
             a0 = unwrap_newtypes(oks[0][4][0][1])
@@ -216,14 +216,25 @@ def run(ctx):
     default_identifier_range(ctx)
     ep = ctx.anchor(CORE + "keys::evaluate_polynomial")
     if ep:
-        reductions(ctx, ep.key, adaptors={"skip": 1, "rev": 1}, min_loops=1)
         v = FnView.get(P, ep)
-        rt = v.cx.local(0)
-        sk = [s for s in subterms(rt) if is_call(s, name="skip")]
-        ctx.check(len(sk) >= 1 and all(const(1)(s[2][1]) for s in sk) and mentions(rt, call("first", arg(2))),
-                  "RED", ep.key, "skip(1)+first",
-                  "evaluate_polynomial (Horner) must cover coefficients[1..] in the loop and coefficients[0] after it",
-                  ep.loc)
+        red, c0 = horner_parts(P, ep, v)
+        sv = seq_view(red["source"]) if red else None
+        reductions(ctx, ep.key, adaptors=(sv["adaptors"] if sv else {"skip": 1, "rev": 1}), min_loops=0)
+        good = bool(sv) and sv["base"] == ("arg", 2) and sv["drop_front"] == 1 and sv["drop_back"] == 0 and sv["reversed"] \
+            and first_of(arg(2))(c0) and not red["skippable"] and not red["early_exit"]
+        ctx.check(good, "RED", ep.key, "skip(1)+first",
+                  "evaluate_polynomial (Horner) must run over coefficients[1..] from the highest down and add coefficients[0] "
+                  "after it (found %s)" % ({k: (fmt(x) if isinstance(x, tuple) else x) for k, x in sv.items()} if sv else None), ep.loc)
+
+
+def horner_parts(P, ep, v):
+    """(reduction, constant term) of evaluate_polynomial: value = reduce(..) + c0, as a loop or as a fold"""
+    from .c01 import total_of
+    rt = v.cx.local(0)
+    red, extra = total_of(P, ep, v, rt)
+    if red is None:
+        return None, None
+    return red, extra
 
 
 def arithmetic_kernels(ctx):
@@ -237,35 +248,20 @@ def arithmetic_kernels(ctx):
     ep = ctx.anchor(CORE + "keys::evaluate_polynomial")
     if ep:
         v = FnView.get(P, ep)
-        names = {n: l for l, n in ep.var_names().items()}
-        loops = ep.loops()
+        red, c0 = horner_parts(P, ep, v)
         good = False
         det = ""
-        if "value" in names and loops:
-            lp = loops[0]
-            cx = TermCx(P, ep)
-            cx.busy.add(names["value"])
-            ds = [d for d in ep.defs().get(names["value"], []) if d[0] in ("assign", "call")]
-            item = next_item(lambda t: mentions(t, arg(2)))
-            leaves = [(lambda t: t[0] == "loopvar" and t[2] == names["value"], ("scal", "v")), (item, ("scal", "c")),
+        if red:
+            leaves = [(lambda t: t == ACC, ("scal", "v")), (lambda t: t == ITEM, ("scal", "c")),
                       (lambda t: strip_newtype_fields(t) == ("arg", 1) and t != ("arg", 1), ("scal", "x")),
-                      (lambda t: is_call(t, name="expect") and is_call(t[2][0], name="first") and t[2][0][2][0] == ("arg", 2), ("scal", "c0"))]
+                      (first_of(arg(2)), ("scal", "c0"))]
             al = Alg(leaves)
             try:
-                inl, outl = [], []
-                for d in ds:
-                    t = cx.rvalue(d[3], (ep.key, d[1], d[2])) if d[0] == "assign" else cx.call(d[2], (ep.key, d[1]))
-                    (inl if d[1] in lp["body"] else outl).append(al.val(t)[1])
-                # in the loop: v+c then v*x (two sequential updates); after: v + c0; before: 0
-                good = (sorted(map(repr, inl)) == sorted(map(repr, [pa(sym("v"), sym("c")), pm(sym("v"), sym("x"))])) and
-                        sorted(map(repr, outl)) == sorted(map(repr, [{}, pa(sym("v"), sym("c0"))])))
-                # order inside the loop: add first, then multiply
-                rpo = ep.rpo()
-                seq = sorted([(rpo.get(d[1], 0), d[2] if d[0] == "assign" else 10 ** 6, d) for d in ds if d[1] in lp["body"]])
-                if good and len(seq) == 2:
-                    t0 = cx.rvalue(seq[0][2][3], (ep.key, 0, 0)) if seq[0][2][0] == "assign" else cx.call(seq[0][2][2], (ep.key, 0))
-                    good = al.val(t0)[1] == pa(sym("v"), sym("c"))
-                det = "loop updates %s, other %s" % ([show(("scal", x)) for x in inl], [show(("scal", x)) for x in outl])
+                step = al.val(composed_step(red["steps"]))[1]
+                init = [al.val(t)[1] for t in red["init"]]
+                last = al.val(c0)[1]
+                good = step == pm(pa(sym("v"), sym("c")), sym("x")) and init == [{}] and last == sym("c0")
+                det = "step %s, init %s, then + %s" % (show(("scal", step)), [show(("scal", x)) for x in init], show(("scal", last)))
             except Unanalysable as e:
                 det = str(e)
         ctx.check(good, "AGREE", ep.key, "Horner:value=(value+c_k)*x;+c_0",
